@@ -221,6 +221,25 @@ theorem C06_codec_text_roundtrip (v : Val) (hw : v.WF) (hc : v.Canonical) (hf : 
     decodeText (encodeText v) = some v :=
   decodeText_encodeText v hw hc hf
 
+/-- **The key TEXT identifies the call** (character level, the statement of the property on the strings the recorder really
+uses): two input keys with the same text have the same alias, and captured positional and keyword arguments that are equal
+up to dict order.  Premises: no `=` in the resolved aliases (`AliasWF`, the proof-forced delimiter condition), faithful
+captured values, well-formed float texts. -/
+theorem C06_key_text_injective (alias alias' : String) (a a' : Val) (kw kw' : Fields)
+    (hw : AliasWF alias.toList) (hw' : AliasWF alias'.toList)
+    (ha : a.WF) (ha' : a'.WF) (hk : kw.WF ∧ kw.NoReserved) (hk' : kw'.WF ∧ kw'.NoReserved)
+    (hf : ∀ t ∈ encToks a, t.WF) (hf' : ∀ t ∈ encToks a', t.WF)
+    (hg : ∀ t ∈ encToks (kwargsVal kw), t.WF) (hg' : ∀ t ∈ encToks (kwargsVal kw'), t.WF)
+    (h : keyText alias a kw = keyText alias' a' kw') :
+    alias = alias' ∧ DictEq a a' ∧ DictEq (.dict kw) (.dict kw') := by
+  obtain ⟨h1, h2⟩ := C06_alias_split alias alias' a a' kw kw' hw hw' h
+  obtain ⟨h3, h4⟩ := args_kwargs_split a a' _ _ hf hf' h2
+  refine ⟨h1, C06_text_injective a a' ha ha' hf hf' h3, ?_⟩
+  have h5 := encodeText_injective _ _ hg hg' h4
+  have := canon_kwargs_of_enc hk.2 hk'.2 h5
+  rwa [canon_eq_sortDicts (.dict kw) (by simpa [Val.WF] using hk),
+    canon_eq_sortDicts (.dict kw') (by simpa [Val.WF] using hk')] at this
+
 /-! Non-vacuity: a value with a float, a negative integer, an escaped string and nesting meets the float-text premise. -/
 example : ∀ t ∈ encToks (.list (.cons (.float "-1.5e+100") (.cons (.int (-7)) (.cons (.str "a\"b") .nil)))), t.WF := by
   decide
